@@ -1,7 +1,7 @@
 (* PropC02.v — C02: a crash at any instant recovers to an atomic, consistent prefix (stream level: WAL = zero-prefilled stream, crash = any byte prefix of the entry in flight; every block size and checksum function). crc_collision P = a frame and its own zero-completed prefix have the same checksum.
    Statements only; each theorem is closed by `exact <lemma>`; proofs live in the imported files. *)
 From Coq Require Import Lia NArith List.
-From MRL Require Import Bytes Params Names Frame Record Mem Spec Rolling Log Driver Hist SpecRefine StreamProofs TornProofs GhostLog RestartInv RestartFinal OpenReplay TornFile CrashTrace NzcVacuous CrashAtomic JInv JunkStream CrashRecovered CrashRecovered2 CrashRecovered3 CrashHistories.
+From MRL Require Import Bytes Params Names Frame Record Mem Spec Rolling Log Driver Hist SpecRefine StreamProofs TornProofs GhostLog RestartInv RestartFinal OpenReplay TornFile CrashTrace NzcVacuous CrashAtomic JInv JunkStream CrashRecovered CrashRecovered2 CrashRecovered3 CrashHistories KTail CrashAt CrashAt2 CrashAt3.
 
 (* THE PROPERTY, end to end: from any state satisfying the global invariant, under a flush-per-operation policy, for EVERY crash image of a call (cut between any two file-system effects - file creation, set_len, flush, sync, unlink - or after any number of bytes of any write): open succeeds and the recovered abstract state is that of all completed calls, or that plus the in-flight call (the model never shows a partially applied truncate/delete) *)
 Theorem C02_crash_atomic :
@@ -615,4 +615,99 @@ Theorem C02_usable_restart_identity :
     (forall q : bytes, s_get (abs_qs (s_qs st2)) q = s_get (abs_qs (s_qs st)) q).
 Proof. exact jstate_restart_identity. Qed.
 Print Assumptions C02_usable_restart_identity.
+
+(* the restrictions on the interrupted call lifted: ANY call (roll-overs, last blocks, multi-file entries) from a usable state, and every crash point of it except one family - a strictly partial cut whose torn data end strictly inside the LAST block of the top file of the image: open succeeds, state before/after, usable again (crash points between completing a file and creating the next, at and after the roll-over's create/set_len with the junk spanning the file boundary, and in the flush/sync/unlink tail are all covered) *)
+Theorem C02_crash_at_any_geometry :
+    forall P : params,
+    7 < BS P ->
+    BS P <= 65542 ->
+    1 <= NB P ->
+    (forall (t : byte) (p : bytes), crcf P t p < 2 ^ 32) ->
+    L_GC P = false ->
+    L_IO P = false ->
+    L_SHORT P = false ->
+    no_zero_collision P ->
+    forall (st : state) (a : bool) (o : op) (tick : bool) (st' : state) (out : outcome),
+    jstate P st ->
+    crash_call_ok0 P st a o tick st' out ->
+    (forall e : ioerr, out <> OutIo e) /\
+    (exists evs : list event,
+    c_ev (w_ctx (s_wr st')) = rev evs ++ c_ev (w_ctx (s_wr st)) /\
+    (forall (cut k : N) (pol : policy) (hint : list bytes),
+    crash_point_ok3 P st evs (crash_events evs cut k) ->
+    let img := fold_left apply_event (crash_events evs cut k) (c_fs (w_ctx (s_wr st))) in
+    exists st_r : state,
+    open P img None pol hint = OpenOk st_r /\
+    jstate P st_r /\
+    s_pol st_r = pol /\
+    w_pending (s_wr st_r) = [] /\
+    ((forall q : bytes, s_get (abs_qs (s_qs st_r)) q = s_get (abs_qs (s_qs st)) q) \/
+    (forall q : bytes, s_get (abs_qs (s_qs st_r)) q = s_get (abs_qs (s_qs st')) q)))).
+Proof. exact jstate_crash_at3. Qed.
+Print Assumptions C02_crash_at_any_geometry.
+
+(* the same for a second crash during the recovery's own effects *)
+Theorem C02_crash_self_at_any_geometry :
+    forall P : params,
+    7 < BS P ->
+    BS P <= 65542 ->
+    1 <= NB P ->
+    (forall (t : byte) (p : bytes), crcf P t p < 2 ^ 32) ->
+    L_GC P = false ->
+    L_IO P = false ->
+    L_SHORT P = false ->
+    no_zero_collision P ->
+    forall (st : state) (a : bool) (o : op) (tick : bool) (st' : state) (out : outcome),
+    jstate P st ->
+    crash_call_ok0 P st a o tick st' out ->
+    exists evs : list event,
+    c_ev (w_ctx (s_wr st')) = rev evs ++ c_ev (w_ctx (s_wr st)) /\
+    (forall (cut k : N) (pol : policy) (hint : list bytes) (st_r : state),
+    crash_point_ok3 P st evs (crash_events evs cut k) ->
+    let img := fold_left apply_event (crash_events evs cut k) (c_fs (w_ctx (s_wr st))) in
+    open P img None pol hint = OpenOk st_r ->
+    JRecover5.is_top img (w_file (s_wr st_r)) ->
+    w_off (s_wr st_r) + BS P <= FILE_BYTES P ->
+    JRecoverSelf.rec_bound P st_r ->
+    forall (cut2 k2 : N) (pol3 : policy) (hint3 : list bytes),
+    exists st_r2 : state,
+    open P (fold_left apply_event (crash_events (rev (c_ev (w_ctx (s_wr st_r)))) cut2 k2) img) None
+    pol3 hint3 = OpenOk st_r2 /\
+    (forall q : bytes, s_get (abs_qs (s_qs st_r2)) q = s_get (abs_qs (s_qs st_r)) q) /\
+    jstate P st_r2 /\ s_pol st_r2 = pol3 /\ w_pending (s_wr st_r2) = []).
+Proof. exact jstate_crash_self_at3. Qed.
+Print Assumptions C02_crash_self_at_any_geometry.
+
+(* and for histories with crashes anywhere, each crash point subject to that one exclusion *)
+Theorem C02_crash_histories_any_geometry :
+    forall P : params,
+    7 < BS P ->
+    BS P <= 65542 ->
+    1 <= NB P ->
+    (forall (t : byte) (p : bytes), crcf P t p < 2 ^ 32) ->
+    L_GC P = false ->
+    L_IO P = false ->
+    L_SHORT P = false ->
+    no_zero_collision P ->
+    forall (h : list chop) (st : state),
+    jstate P st ->
+    chist_ok_at3 P st h ->
+    exists (st' : state) (m' : smap),
+    crun P st h = Some st' /\
+    jstate P st' /\
+    chist_spec (abs_qs (s_qs st)) h m' /\ (forall q : bytes, s_get m' q = s_get (abs_qs (s_qs st')) q).
+Proof. exact crash_histories_at3. Qed.
+Print Assumptions C02_crash_histories_any_geometry.
+
+(* tail lemma: if the missing bytes of an entry are all zero, fewer than a block payload of them are missing *)
+Theorem C02_zero_tail_short :
+    forall P : params,
+    7 < BS P ->
+    BS P <= 65542 ->
+    (forall (t : byte) (p : bytes), crcf P t p < 2 ^ 32) ->
+    forall (a : N) (f : bool) (p e : bytes) (k : nat),
+    enc_rel P a f p e k ->
+    forall j : N, j <= lenN e -> all_zero (dropN j e) = true -> lenN e <= j + (BS P - 7).
+Proof. exact zero_tail_short. Qed.
+Print Assumptions C02_zero_tail_short.
 
